@@ -80,11 +80,12 @@ func profileFor(prop string, tier string) *Profile {
 		p.W = map[string]int{"str": 45, "gov": 5, "bank": 4, "attack": 6, "multi": 5, "nest": 2}
 		p.Dt = dtLong
 	case "C11", "C12":
-		p.W = map[string]int{"str": 60, "gov": 4, "bank": 2, "multi": 4}
+		p.W = map[string]int{"str": 60, "gov": 4, "bank": 2, "multi": 4, "attack": 4}
 		p.Dt = dtLong
 		p.FaultPct = 4
 	case "C13":
 		p.W["attack"] = 25
+		p.W["gov"] = 8
 	case "C14":
 		p.W["multi"], p.W["gov"], p.W["nest"] = 15, 8, 6
 		p.FaultPct = 25
@@ -1294,7 +1295,7 @@ func (g *Gen) govTx(w *World) TxSpec {
 	if g.pct(10) {
 		inner = append(inner, g.paramMsg(w))
 	}
-	if g.pct(8) || w.T.Knobs.WhitelistGov && g.pct(35) {
+	if g.pct(8) || w.T.Knobs.WhitelistGov && g.pct(35) || g.Prop == "C13" && g.pct(25) {
 		// governance executing an arbitrary custom message with itself as the named party
 		m := g.customMsg(w)
 		if w.M.Ent.Whitelist[ModuleAddr("gov").String()] && g.pct(75) {
@@ -1327,7 +1328,9 @@ func (g *Gen) attackTx(w *World) TxSpec {
 	case 1:
 		return g.wrap(w, MsgSpec{T: "bank.multisend", A: a, B: pick(g.R, []int{AddrEnterprise, AddrStream}), Amt: "1000", Denom: Native, Tag: "attack"})
 	case 2:
-		return g.wrap(w, MsgSpec{T: "str.create", A: a, B: pick(g.R, []int{AddrEnterprise, AddrStream, AddrGov}), Amt: "60000", Denom: Native, N: 10, Tag: "attack"})
+		// a stream towards a module account (the bank refuses to credit most of them), sometimes
+		// with the receiver written in the upper-case spelling of its address
+		return g.wrap(w, MsgSpec{T: "str.create", A: a, B: pick(g.R, []int{AddrEnterprise, AddrStream, AddrGov, AddrFeeCollector, AddrBonded, AddrDistr}), Amt: "60000", Denom: Native, N: 10, Tag: "attack", UpB: g.pct(40)})
 	case 3:
 		// self-named: attacker names himself for someone else's entity
 		m := g.customMsg(w)
